@@ -287,6 +287,9 @@ func TestMC_C17(t *testing.T) {
 	defer c.Finish()
 	c.SetRule("(1) BFS over all histories of real finalized one-transaction snapshots (deposit / split / merge / withdrawal submit / claim / mint / pledge / cancel / re-finalization on another chain / admission without finalization, finalization-path takeover by a competitor, later finalization of the pending spend) built by a deterministic wallet against the current state; canonical state = multiset of (asset,type,amount,spent) of all UTXO records + reference totals + pending flags; invariant evaluated in every state")
 	c.Assume("Badger transactions are atomic; snapshots are written directly on a genesis chain's head round (storage layer, no kernel round logic); the wallet's choice of inputs (smallest first) is part of the alphabet")
+	// the concurrent part first: it is short, and a wall-clock cap that cuts the
+	// BFS below must not keep it from running
+	c17Concurrent(c)
 	depth := verifmc.Pick(c, 5, 7)
 	b := &verifmc.BFS[*mcWallet]{
 		C: c, NumEvents: len(c17Events), MaxDepth: depth,
@@ -299,5 +302,4 @@ func TestMC_C17(t *testing.T) {
 	states, trans, d, _ := b.Run()
 	c.Set("max_depth", d)
 	c.Require(states > 50 && trans > 200, "vacuous C17 exploration: %d states %d transitions", states, trans)
-	c17Concurrent(c)
 }
